@@ -1,15 +1,38 @@
 """C12 — iv_work: items run once in a worker, complete once in the owner.
 
 Schedule-level completeness is not decided; claimed are the structural clauses.
+
+Nothing here names a static function of iv_work.c.  The code is found by role:
+  * worker    = the root (installed handler / exported function) that reaches an indirect call through
+                iv_work_item.work and touches a work_pool_priv;
+  * owner     = the root that reaches a call through iv_work_item.completion and touches a work_pool_priv;
+  * local     = the root that reaches those calls without touching a pool (NULL pool);
+  * submit    = the exported functions from which the link into work_pool_priv.work_items is reachable;
+  * start     = the roots from which iv_thread_create is reachable and that touch a work_pool_priv.
+Every root is analysed with the internal helpers of the iv_work code inlined and normalised (h12.context_of: cached
+addresses / values substituted, emptiness snapshots and result flags partitioned away, open-coded list primitives and
+container_of recognised); obligations about a source construct are evaluated in every context and grouped by source
+location.  The obligations themselves are formulated over paths (h12.worlds: may-analysis over small abstract worlds,
+with NULL-ness of locals) and over the definition-based typestate of an item (h12.Items), never over loop or branch shape.
 """
 from ..core import (names_of, same_value, AnalysisBroken, Inliner, canon, strip, last_member, must_pass, relpath, norm_cond, walk, forward)
 from ..analyses import (is_call, holding, path_to, describe, exits_of, callback_kind, loops, innermost_loop,
                         locksets, held, force_edges, prune_infeasible, list_empty_test, must_pass_from_block,
-                        atoms_reading)
+                        atoms_reading, lock_effect)
+from ..roles import by_loc
 from . import c01
+from . import h12 as h
 
 POOL = 'work_pool_priv.lock'
+PRIV = 'work_pool_priv'
+SEQ_HEAD, SEQ_TAIL = (PRIV, 'seq_head'), (PRIV, 'seq_tail')
+WORK_ITEMS, WORK_DONE, IDLE = (PRIV, 'work_items'), (PRIV, 'work_done'), (PRIV, 'idle_threads')
+STARTED = (PRIV, 'started_threads')
+LOCALQ = ('iv_work_thr_info', 'work_items')
+ITEM_LINK = ('iv_work_item', 'list')
 
+
+# -- kept for c13 (imports lm_arg, per_iter_must, POOL) ------------------------------------------------------------
 
 def lm_arg(e, i):
     a = strip(e['args'][i]) if len(e.get('args', [])) > i else None
@@ -20,247 +43,553 @@ def lm_arg(e, i):
 
 def per_iter_must(f, site, pred, kill=None):
     lps = loops(f)
-    h = innermost_loop(f, site['_b'], lps)
+    h_ = innermost_loop(f, site['_b'], lps)
     def tr(e, s):
         if kill and kill(e):
             return False
         return True if pred(e) else s
     def edge(blk, si, s):
-        return False if (h is not None and blk.succ[si] == h) else s
+        return False if (h_ is not None and blk.succ[si] == h_) else s
     _, ev_in = forward(f, False, tr, lambda a, b: a and b, edge=edge)
     return bool(ev_in.get((site['_b'], site['_i'])))
 
 
+# -- site predicates ---------------------------------------------------------------------------------------------
+
+def work_site(e):
+    return callback_kind(e) == ('callback', 'work')
+
+
+def completion_site(e):
+    return callback_kind(e) == ('callback', 'completion')
+
+
+def pool_add(e):
+    return is_call(e, h.ADD) and lm_arg(e, 0) == ITEM_LINK and lm_arg(e, 1) == WORK_ITEMS
+
+
+def local_add(e):
+    return is_call(e, h.ADD) and lm_arg(e, 0) == ITEM_LINK and lm_arg(e, 1) == LOCALQ
+
+
+def done_add(e):
+    return is_call(e, h.ADD) and lm_arg(e, 1) == WORK_DONE
+
+
+def pool_lock_op(e, which=None):
+    for (op, lid) in lock_effect(e):
+        if lid == POOL and (which is None or op == which):
+            return True
+    return False
+
+
+def kick_post(e):
+    return is_call(e, 'iv_event_post') and lm_arg(e, 0) == ('work_pool_thread', 'kick')
+
+
+def kicked_mark(e):
+    if e['ev'] != 'store' or last_member(e['lhs']) != ('work_pool_thread', 'kicked') or e.get('op') != '=':
+        return False
+    r = strip(e.get('rhs'))
+    return isinstance(r, dict) and r.get('k') == 'int' and r['v'] != 0
+
+
+def start_or_request(e):
+    return is_call(e, 'iv_thread_create') or (is_call(e, 'iv_event_post') and lm_arg(e, 0) == (PRIV, 'thread_needed'))
+
+
+def pos(e):
+    return (e['_b'], e['_i'])
+
+
+def _cap(n):
+    return max(-2, min(2, n))
+
+
+def origin(e, root):
+    q = e.get('fn') or root.q
+    return q.split(':')[-1]
+
+
+def pool_contexts(prog, pred, pool=True):
+    return [c for c in h.contexts(prog, pred) if h.touches(c[1], PRIV) == pool]
+
+
 def run(ctx):
-    ctx.rule('R-C12a', 'LOCK-FREE-CALLBACK: work functions and completions are entered with no lock held', floor=4)
+    ctx.rule('R-C12a', 'LOCK-FREE-CALLBACK: work functions and completions are entered with no lock held (in every calling context)', floor=4)
     ctx.rule('R-C12b', 'queue and sequence numbers move together under the pool lock; an item is queued as done only after its '
-                       'work function returned; a completion runs only after the item left the owner\'s batch', floor=6)
-    ctx.rule('R-C12c', 'KICK-ON-EMPTY for the done queue: emptiness test before the add, same lock region, empty => post of the pool event', floor=2)
+                       'work function returned; a completion runs only after the item left the owner\'s batch', floor=10)
+    ctx.rule('R-C12c', 'KICK-ON-EMPTY for the done queue: emptiness known at the add within the same lock region, empty => post of the pool event', floor=2)
     ctx.rule('R-C12d', 'submit always wakes an idle worker (marking it kicked), or starts / requests a thread when below the maximum; '
-                       'a worker that leaves with work still queued re-posts its own kick', floor=5)
+                       'a worker that leaves with work still queued re-posts its own kick', floor=9)
     ctx.rule('R-C12e', 'NULL pool: work then completion of the same item, in that order, after the unlink; the local task is '
-                       'registered on the empty -> non-empty transition of the local queue', floor=3)
-    ctx.rule('R-C12f', 'thread bound: a worker thread is started only under the pool lock on the edge started_threads < max_threads', floor=2)
+                       'registered on the empty -> non-empty transition of the local queue', floor=4)
+    ctx.rule('R-C12f', 'thread bound: a worker thread is started only under the pool lock on the edge started_threads < max_threads, '
+                       'and is counted before the lock is dropped', floor=6)
     ctx.section(thread_bound)
     ctx.section(callbacks)
     ctx.section(queues)
+    ctx.section(done_kick)
     ctx.section(submit)
+    ctx.section(leftover)
     ctx.section(local)
+
+
+# ------------------------------------------------------------------------------------------------------------------
+# R-C12f
+# ------------------------------------------------------------------------------------------------------------------
+
+def _create_failed(at, resvars):
+    """the atom says the iv_thread_create call failed (result < 0 / != 0 / == -1)"""
+    (op, lc, rc, l, r) = at
+    if op == 'const':
+        return False
+    isres = any(x.get('k') == 'call' and x.get('callee') == 'iv_thread_create' for x in walk(l)) or bool(names_of(l) & resvars)
+    if not isres:
+        return False
+    return (op in ('<', '!=') and rc == '0') or (op == '==' and rc.startswith('-')) or (op == '<=' and rc.startswith('-'))
+
+
+def is_decr(e, key):
+    if e['ev'] != 'store' or last_member(e['lhs']) != key:
+        return False
+    return e['op'] == '--' or (e['op'] == '-=' and h.is_int(e.get('rhs'), 1))
 
 
 def thread_bound(ctx):
     prog = ctx.prog
-    n = 0
-    for f in sorted(prog.all_funcs(), key=lambda f: f.q):
-        starts = [e for e in f.events() if is_call(e, 'iv_work_start_thread')]
-        if not starts:
-            continue
-        hd = holding(f)
-        ls = locksets(f)
-        for e in starts:
-            n += 1
-            A = hd.get((e['_b'], e['_i']), frozenset())
-            below = any(a[0] in ('<', '<=') and a[1].endswith('->started_threads') and a[2].endswith('max_threads') for a in A) or \
-                any(a[0] in ('>', '>=') and a[2].endswith('->started_threads') and a[1].endswith('max_threads') for a in A)
-            ctx.ob('R-C12f', '%s:start-below-maximum' % f.name, below and POOL in held(ls.get((e['_b'], e['_i']))), loc=e['loc'],
-                   detail='iv_work_start_thread is on the edge started_threads < max_threads, with the pool lock held (count and test cannot be separated)',
-                   path=None if below else path_to(f, e), fn=f.q)
-    if n < 2:
-        raise AnalysisBroken('thread start sites: %d found, 2 confirmed' % n)
+    cs = pool_contexts(prog, lambda e: is_call(e, 'iv_thread_create'))
+    if len(cs) < 2:
+        raise AnalysisBroken('thread start contexts: %d found (roots that reach iv_thread_create and touch a pool), >= 2 confirmed' % len(cs))
+    for root, g, sites in cs:
+        ls = locksets(g)
+        # world (below, creates, increments): `below` = an edge started_threads < max_threads was taken in the current
+        # pool-lock region; creates / increments of the counter since that edge.  The room found by one test is good for one thread,
+        # counted before or after it is created.
+        def step(e, w):
+            below, nc, ni = w
+            if pool_lock_op(e):
+                return [(False, 0, 0)]
+            if is_call(e, 'iv_thread_create'):
+                return [(below, min(nc + 1, 2), ni)]
+            if h.is_incr(e, STARTED):
+                return [(below, nc, min(ni + 1, 2))]
+            if h.writes(e, STARTED) or (e['ev'] == 'store' and any(k[1] == 'max_threads' for k in h.lvalue_steps(e['lhs']))):
+                return [(False, nc, ni)] if not (is_decr(e, STARTED) and ni > 0) else [(below, nc, ni - 1)]
+            return [w]
+        def edge(blk, si, w):
+            for at in h.atoms_on(blk, si):
+                if h.compare_fields(at, STARTED, 'max_threads') == '<':
+                    return (True, 0, 0)
+            return w
+        W = h.worlds(g, (False, 0, 0), step, edge)
+        for loc, evs in sorted(by_loc(sites).items()):
+            below = all(all(w[0] and w[1] == 0 and w[2] <= 1 for w in W.get(pos(e), ())) for e in evs)
+            locked = all(POOL in held(ls.get(pos(e))) for e in evs)
+            ctx.ob('R-C12f', '%s:start-below-maximum' % root.name, below and locked, loc=loc,
+                   detail='iv_thread_create is reached only over an edge started_threads < max_threads taken in the current pool-lock '
+                          'region, and that test admits one thread (count and test cannot be separated)%s%s'
+                          % ('' if below else '; NOT below the maximum on every path', '' if locked else '; pool lock NOT held'),
+                   path=None if below else path_to(g, evs[0]), fn=root.q)
+        # the started thread is counted before the region ends: world (creates not known to have failed, net increments)
+        resvars = {canon(e['lhs']) for e in g.events() if e['ev'] == 'store' and 'rhs' in e and h.varname(e['lhs'])
+                   and any(x.get('k') == 'call' and x.get('callee') == 'iv_thread_create' for x in walk(e['rhs']))}
+        def step2(e, w):
+            c, n = w
+            if pool_lock_op(e):
+                return [(0, 0)]
+            if is_call(e, 'iv_thread_create'):
+                return [(_cap(c + 1), n)]
+            if h.is_incr(e, STARTED):
+                return [(c, _cap(n + 1))]
+            if is_decr(e, STARTED):
+                return [(c, _cap(n - 1))]
+            return [w]
+        def edge2(blk, si, w):
+            if w[0] > 0 and any(_create_failed(at, resvars) for at in h.atoms_on(blk, si)):
+                return (w[0] - 1, w[1])
+            return w
+        W2 = h.worlds(g, (0, 0), step2, edge2)
+        bad = [e for e in g.events() if pool_lock_op(e, 'unlock') and any(c != n for (c, n) in W2.get(pos(e), ()))]
+        ctx.ob('R-C12f', '%s:started-thread-is-counted' % root.name, not bad, loc=sites[0]['loc'],
+               detail='whenever the pool lock is released, started_threads has been incremented once per successful iv_thread_create of the '
+                      'region (an uncounted thread lets the next submitter exceed max_threads)', fn=root.q)
 
+
+# ------------------------------------------------------------------------------------------------------------------
+# R-C12a
+# ------------------------------------------------------------------------------------------------------------------
 
 def callbacks(ctx):
     prog = ctx.prog
-    n = 0
-    for f in sorted(prog.all_funcs(), key=lambda f: f.q):
-        sites = [e for e in f.events() if (callback_kind(e) or ('', ''))[0] == 'callback' and callback_kind(e)[1] in ('work', 'completion')]
-        if not sites:
-            continue
-        ls = locksets(f)
-        for cs in sites:
-            n += 1
-            H = held(ls.get((cs['_b'], cs['_i'])))
-            ctx.ob('R-C12a', '%s:%s' % (f.name, callback_kind(cs)[1]), not H, loc=cs['loc'],
-                   detail='locks held at the call: %s' % (sorted(H) or 'none'), fn=f.q)
-    if n < 4:
-        raise AnalysisBroken('work/completion call sites: %d found, 4 confirmed' % n)
+    sites = {}
+    for kind, pred in (('work', work_site), ('completion', completion_site)):
+        for root, g, ss in h.contexts(prog, pred):
+            ls = locksets(g)
+            for cs in ss:
+                sites.setdefault((kind, cs['loc'], origin(cs, root)), []).append((root, held(ls.get(pos(cs)))))
+    for (kind, loc, fn), lst in sorted(sites.items()):
+        bad = sorted({'%s in %s' % (l, r.name) for r, H in lst for l in H})
+        ctx.ob('R-C12a', '%s:%s' % (fn, kind), not bad, loc=loc,
+               detail='locks held at the call, over all calling contexts (%s): %s' % (', '.join(sorted({r.name for r, _ in lst})), bad or 'none'),
+               fn=lst[0][0].q)
+    if len(sites) < 4:
+        raise AnalysisBroken('work/completion call sites: %d found, 4 confirmed' % len(sites))
 
+
+# ------------------------------------------------------------------------------------------------------------------
+# R-C12b
+# ------------------------------------------------------------------------------------------------------------------
 
 def queues(ctx):
     prog = ctx.prog
-    # submit: seq_tail++ and the link, one region
-    f = prog.fn('iv_work_submit_pool')
-    ls = locksets(f)
-    inc = [e for e in f.events() if e['ev'] == 'store' and last_member(e['lhs']) == ('work_pool_priv', 'seq_tail') and e['op'] in ('++', '+=')]
-    add = [e for e in f.events() if is_call(e, ('iv_list_add_tail', 'iv_list_add')) and lm_arg(e, 0) == ('iv_work_item', 'list')
-           and lm_arg(e, 1) == ('work_pool_priv', 'work_items')]
-    if not inc or not add:
-        raise AnalysisBroken('submit: seq_tail++ or the link into work_items not found')
-    def region(e):
-        return sorted(x[1] if isinstance(x[1], str) else str(x[1]) for x in ls.get((e['_b'], e['_i']), ()) if x[0] == POOL)
-    r1 = {tuple(region(e)) for e in inc}
-    r2 = {tuple(region(e)) for e in add}
-    once = len({e['loc'] for e in inc}) == 1 and len({e['loc'] for e in add}) == 1
-    ctx.ob('R-C12b', 'submit:seq_tail-with-link', () not in r1 and r1 == r2 and len(r1) == 1 and once, loc=inc[0]['loc'],
-           detail='seq_tail++ and iv_list_add_tail(&work->list, &pool->work_items) once each, in one pool-lock region', fn=f.q)
-    mp = must_pass(f, lambda e: e in inc)
-    ok = all(mp.get((pb, pi), True) for (pb, pi, _) in exits_of(f)) and mp.get((f.exit, 0), True)
-    mp2 = must_pass(f, lambda e: e in add)
-    ok = ok and mp2.get((f.exit, 0), True)
-    ctx.ob('R-C12b', 'submit:always-queues', ok, loc=f.loc, detail='every return of submit has counted and linked the item', fn=f.q)
-    # worker: seq_head++ with unlink of first item; done-queue add after work returned
-    f = prog.fn('iv_work_thread_got_event')
-    ls = locksets(f)
-    site = [e for e in f.events() if callback_kind(e) == ('callback', 'work')]
-    if not site:
-        raise AnalysisBroken('worker: work call not found')
-    cs = site[0]
-    obj = canon(strip(cs['fnexpr'])['base'])
-    inc = [e for e in f.events() if e['ev'] == 'store' and last_member(e['lhs']) == ('work_pool_priv', 'seq_head') and e['op'] in ('++', '+=')]
-    dele = [e for e in f.events() if is_call(e, ('iv_list_del', 'iv_list_del_init')) and canon(e['args'][0]) == '&%s->list' % obj]
-    ok = bool(inc) and bool(dele) and per_iter_must(f, cs, lambda e: e in inc) and per_iter_must(f, cs, lambda e: e in dele)
-    ok = ok and all(POOL in held(ls.get((e['_b'], e['_i']))) for e in inc + dele)
-    ctx.ob('R-C12b', 'worker:seq_head-with-unlink', ok, loc=cs['loc'],
-           detail='seq_head++ and the unlink of the item, under the pool lock, before the work function in every iteration', fn=f.q)
-    # the item taken is the first of work_items
-    defs = [e for e in f.events() if e['ev'] == 'store' and canon(e['lhs']) == obj]
-    okf = bool(defs) and all(strip(e['rhs']).get('k') == 'container_of' and last_member(strip(e['rhs'])['e']) == ('iv_list_head', 'next')
-                             and 'work_items' in canon(e['rhs']) for e in defs)
-    ctx.ob('R-C12b', 'worker:takes-queue-head', okf, loc=defs[0]['loc'] if defs else cs['loc'],
-           detail='%s = first element of pool->work_items (FIFO)' % obj, fn=f.q)
-    done = [e for e in f.events() if is_call(e, ('iv_list_add_tail', 'iv_list_add')) and lm_arg(e, 1) == ('work_pool_priv', 'work_done')]
-    if not done:
-        raise AnalysisBroken('worker: add to work_done not found')
-    for d in done:
-        ok = per_iter_must(f, d, lambda e: e is cs) and canon(d['args'][0]) == '&%s->list' % obj and POOL in held(ls.get((d['_b'], d['_i'])))
-        ctx.ob('R-C12b', 'worker:done-after-work', ok, loc=d['loc'],
-               detail='the item is queued as done, under the lock, only after its work function returned in the same iteration', fn=f.q)
-        # R-C12c
-        tests = [e for e in f.events() if is_call(e, 'iv_list_empty') and lm_arg(e, 0) == ('work_pool_priv', 'work_done')]
-        rt = [[x for x in ls.get((t['_b'], t['_i']), ()) if x[0] == POOL] for t in tests]
-        rd = [x for x in ls.get((d['_b'], d['_i']), ()) if x[0] == POOL]
-        ok = bool(tests) and all(r == rd and r for r in rt) and per_iter_must(f, d, lambda e: e in tests)
-        ctx.ob('R-C12c', 'worker:test-then-add-one-region', ok, loc=d['loc'],
-               detail='emptiness of work_done is tested before the add within the same lock region', fn=f.q)
-        hd = holding(f)
-        posts = [e for e in f.events() if is_call(e, 'iv_event_post') and lm_arg(e, 0) == ('work_pool_priv', 'ev')]
-        # on the empty edge the post is reached before the add
-        okp = False
-        for b, blk in f.blocks.items():
-            if blk.term and blk.term.get('cond') is not None and len(blk.succ) == 2:
-                for si in (0, 1):
-                    for at in norm_cond(blk.term['cond'], si == 0):
-                        if list_empty_test(at, member_key=('work_pool_priv', 'work_done')) == 'empty':
-                            mp = must_pass_from_block(f, blk.succ[si], lambda e: e in posts)
-                            okp = bool(mp.get((d['_b'], d['_i'])))
-        ctx.ob('R-C12c', 'worker:empty-implies-post', okp, loc=d['loc'],
-               detail='when work_done was empty the pool event is posted (before the add, same region)', fn=f.q)
-    # owner: completion only after unlink from the stolen batch
-    f = prog.fn('iv_work_event')
-    for cs in [e for e in f.events() if callback_kind(e) == ('callback', 'completion')]:
-        obj = canon(strip(cs['fnexpr'])['base'])
-        ok = per_iter_must(f, cs, lambda e: is_call(e, ('iv_list_del', 'iv_list_del_init')) and canon(e['args'][0]) == '&%s->list' % obj)
-        ctx.ob('R-C12b', 'owner:completion-after-unlink', ok, loc=cs['loc'],
-               detail='the item leaves the owner\'s batch before its completion runs (it may be resubmitted or freed there)', fn=f.q)
-    steal = [e for e in f.events() if is_call(e, '__iv_list_steal_elements') and lm_arg(e, 0) == ('work_pool_priv', 'work_done')]
-    ls = locksets(f)
-    ctx.ob('R-C12b', 'owner:steal-under-lock', bool(steal) and all(POOL in held(ls.get((e['_b'], e['_i']))) for e in steal),
-           loc=steal[0]['loc'] if steal else f.loc, detail='the done queue is detached under the pool lock', fn=f.q)
+    # ---- submit: every path queues the item exactly once; counter and link move together -------------------
+    subs = [c for c in h.contexts(prog, pool_add) if not c[0].static]
+    if not subs:
+        raise AnalysisBroken('submit: no exported function reaches the link into work_pool_priv.work_items')
+    for root, g, adds in subs:
+        ls = locksets(g)
+        def step(e, w):
+            if h.is_incr(e, SEQ_TAIL):
+                return [(_cap(w[0] + 1), w[1], w[2])]
+            if pool_add(e):
+                return [(w[0], _cap(w[1] + 1), w[2])]
+            if local_add(e):
+                return [(w[0], w[1], _cap(w[2] + 1))]
+            return [w]
+        W = h.worlds(g, (0, 0, 0), step)
+        ex = h.at_exit(g, W)
+        ok = bool(ex) and all(w in ((1, 1, 0), (0, 0, 1)) for w in ex)
+        ctx.ob('R-C12b', '%s:queues-exactly-once' % root.name, ok, loc=root.loc,
+               detail='every return has linked the item exactly once: into the pool queue together with one seq_tail increment, '
+                      'or into the local queue; (seq_tail++, pool links, local links) at exit: %s' % sorted(ex), fn=root.q)
+        incs = [e for e in g.events() if h.is_incr(e, SEQ_TAIL)]
+        locked = all(POOL in held(ls.get(pos(e))) for e in incs + adds)
+        apart = [e for e in g.events() if pool_lock_op(e, 'unlock') and any(w[0] != w[1] for w in W.get(pos(e), ()))]
+        ctx.ob('R-C12b', '%s:seq_tail-with-link' % root.name, bool(incs) and locked and not apart, loc=(incs or adds)[0]['loc'],
+               detail='seq_tail++ and the link into work_items happen under the pool lock, and whenever the lock is released '
+                      'the number of increments equals the number of links', fn=root.q)
+    # ---- worker -------------------------------------------------------------------------------------------------
+    wk = pool_contexts(prog, work_site)
+    if not wk:
+        raise AnalysisBroken('worker: no root calls a work function and touches a pool')
+    for root, g, sites in wk:
+        ls = locksets(g)
+        it = h.Items(g, lock=POOL)
+        for loc, css in sorted(by_loc(sites).items()):
+            objs = [o for cs in css for o in it.callee_objects(cs)]
+            oku = bool(objs) and all(o is not None and o[1] == 'unlinked' and o[3] for o in objs)
+            ctx.ob('R-C12b', 'worker:unlinked-before-work', oku, loc=loc,
+                   detail='between the definition of the item and the call of its work function the item was unlinked, under the pool '
+                          'lock, exactly once (typestate of the item at the call: %s)' % sorted({o[1] if o else 'unknown item' for o in objs}),
+                   path=None if oku else path_to(g, css[0]), fn=root.q)
+            okh = bool(objs) and all(o is not None and o[2] == ('head', WORK_ITEMS) for o in objs)
+            ctx.ob('R-C12b', 'worker:takes-queue-head', okh, loc=loc,
+                   detail='the item run is the first element of pool->work_items (FIFO); taken from: %s' % sorted({str(o[2]) if o else '?' for o in objs}),
+                   fn=root.q)
+        # seq_head moves with the unlink: balanced whenever the lock is released
+        incs = [e for e in g.events() if h.is_incr(e, SEQ_HEAD)]
+        takes = set()
+        for e in g.events():
+            if is_call(e, h.DEL) and e.get('args'):
+                srcs = [o[2] if o is not None else h._src_of(e['args'][0]) for o in it.arg_objects(e)]
+                if any(src is not None and src[1] == WORK_ITEMS for src in srcs):
+                    takes.add(id(e))
+        def step(e, d):
+            if h.is_incr(e, SEQ_HEAD):
+                return [_cap(d + 1)]
+            if id(e) in takes:
+                return [_cap(d - 1)]
+            return [d]
+        W = h.worlds(g, 0, step)
+        apart = [e for e in g.events() if pool_lock_op(e, 'unlock') and any(d != 0 for d in W.get(pos(e), ()))]
+        exbad = any(d != 0 for d in h.at_exit(g, W))
+        locked = all(POOL in held(ls.get(pos(e))) for e in incs) and all(POOL in held(ls.get(pos(e))) for e in g.events() if id(e) in takes)
+        ok = bool(incs) and bool(takes) and locked and not apart and not exbad
+        ctx.ob('R-C12b', 'worker:seq_head-with-unlink', ok, loc=(apart[0]['loc'] if apart else sites[0]['loc']),
+               detail='seq_head++ and the unlink of a queued item happen under the pool lock, and whenever the lock is released (before '
+                      'the work function) the number of increments equals the number of items taken', fn=root.q)
+        done = [e for e in g.events() if done_add(e)]
+        if not done:
+            raise AnalysisBroken('worker: add to work_done not found')
+        for loc, ds in sorted(by_loc(done).items()):
+            objs = [o for d in ds for o in it.arg_objects(d)]
+            ok = bool(objs) and all(o is not None and o[1] == 'worked' for o in objs) and all(POOL in held(ls.get(pos(d))) for d in ds)
+            ctx.ob('R-C12b', 'worker:done-after-work', ok, loc=loc,
+                   detail='the item is queued as done, under the lock, only after its own work function returned '
+                          '(typestate of the item at the add: %s)' % sorted({o[1] if o else 'unknown item' for o in objs}), fn=root.q)
+    # ---- owner ------------------------------------------------------------------------------------------------------
+    ow = pool_contexts(prog, completion_site)
+    if not ow:
+        raise AnalysisBroken('owner: no root calls a completion and touches a pool')
+    for root, g, sites in ow:
+        ls = locksets(g)
+        it = h.Items(g)
+        for loc, css in sorted(by_loc(sites).items()):
+            objs = [o for cs in css for o in it.callee_objects(cs)]
+            ok = bool(objs) and all(o is not None and o[1] == 'unlinked' for o in objs)
+            ctx.ob('R-C12b', 'owner:completion-after-unlink', ok, loc=loc,
+                   detail='the item leaves the owner\'s batch before its completion runs, once (it may be resubmitted or freed there); '
+                          'typestate at the call: %s' % sorted({o[1] if o else 'unknown item' for o in objs}), fn=root.q)
+        steal = [e for e in g.events() if is_call(e, h.DETACH) and lm_arg(e, 0) == WORK_DONE]
+        ok = bool(steal) and all(POOL in held(ls.get(pos(e))) for e in steal)
+        for e in steal:
+            if e['callee'] != '__iv_list_steal_elements':
+                # splice variants link into the target: it must be an initialised list head
+                tgt = canon(e['args'][1])
+                mp = must_pass(g, lambda x, tgt=tgt: is_call(x, 'INIT_IV_LIST_HEAD') and canon(x['args'][0]) == tgt)
+                ok = ok and bool(mp.get(pos(e)))
+        ctx.ob('R-C12b', 'owner:steal-under-lock', ok, loc=steal[0]['loc'] if steal else root.loc,
+               detail='the done queue is detached (all elements moved to an initialised private head, queue left empty) under the pool lock', fn=root.q)
+
+
+# ------------------------------------------------------------------------------------------------------------------
+# KICK-ON-EMPTY (R-C12c, and the local task of R-C12e)
+# ------------------------------------------------------------------------------------------------------------------
+
+def kick_on_empty(g, qkey, is_add, is_kick, lock):
+    """World (K, owed, kicked): K what is known about the emptiness of the queue now ('?', 'E', 'N'); owed: an element was
+    added while the queue was known empty and the consumer was not kicked since; kicked: the consumer was kicked in this
+    region.  Knowledge is dropped when the region ends (lock released / re-taken, a user callback) and when the queue may
+    have been changed.  Returns (untested adds, kicks made while the queue was neither known empty nor an element had just been
+    added to the empty queue, events at which a kick is owed)."""
+    def boundary(e):
+        if lock is not None:
+            return any(lid == lock for (op, lid) in lock_effect(e))
+        return e['ev'] == 'call' and 'fnexpr' in e
+    def step(e, w):
+        K, owed, kicked = w
+        if boundary(e):
+            return [('?', False, False)]
+        if is_kick(e):
+            return [(K, False, True)]
+        if is_add(e):
+            return [('N', owed or (K == 'E' and not kicked), kicked)]
+        if e['ev'] == 'call' and e.get('callee') in h.LIST_PRIMS:
+            keys = [lm_arg(e, i) for i in range(len(e.get('args', [])))]
+            if qkey in keys or (e['callee'] in h.DEL and keys[:1] in ([ITEM_LINK], [None])):
+                return [('?', owed, kicked)]
+        return [w]
+    def edge(blk, si, w):
+        K, owed, kicked = w
+        for at in h.atoms_on(blk, si):
+            t = list_empty_test(at, member_key=qkey)
+            if t is not None:
+                k2 = 'E' if t == 'empty' else 'N'
+                if K != '?' and K != k2:
+                    return None
+                K = k2
+        return (K, owed, kicked)
+    W = h.worlds(g, ('?', False, False), step, edge)
+    untested, offedge, owing = [], [], []
+    for e in g.events():
+        S = W.get(pos(e), ())
+        if is_add(e) and any(w[0] == '?' and not w[2] for w in S):
+            untested.append(e)
+        if is_kick(e) and any(w[0] != 'E' and not w[1] for w in S):
+            offedge.append(e)
+        if boundary(e) and any(w[1] for w in S):
+            owing.append(e)
+    if any(w[1] for w in h.at_exit(g, W)):
+        owing.append(None)
+    return untested, offedge, owing
+
+
+def done_kick(ctx):
+    prog = ctx.prog
+    wk = pool_contexts(prog, done_add)
+    if not wk:
+        raise AnalysisBroken('done queue: no root links items into work_pool_priv.work_done')
+    ev_post = lambda e: is_call(e, 'iv_event_post') and lm_arg(e, 0) == (PRIV, 'ev')
+    for root, g, adds in wk:
+        untested, _, owing = kick_on_empty(g, WORK_DONE, done_add, ev_post, POOL)
+        ctx.ob('R-C12c', '%s:test-then-add-one-region' % root.name, not untested, loc=(untested or adds)[0]['loc'],
+               detail='at the add to work_done its emptiness is known from a test made in the same pool-lock region with the queue '
+                      'untouched since (or the owner is posted unconditionally)', fn=root.q)
+        ctx.ob('R-C12c', '%s:empty-implies-post' % root.name, not owing, loc=adds[0]['loc'],
+               detail='when work_done was empty at the add, the pool event is posted before the pool lock is released', fn=root.q)
+
+
+# ------------------------------------------------------------------------------------------------------------------
+# R-C12d
+# ------------------------------------------------------------------------------------------------------------------
+
+BITS = ('queued', 'ne', 'em', 'be', 'nb', 'mark', 'post', 'start', 'oom')
+ZERO = (False,) * len(BITS)
+
+
+def _set(w, name, v=True):
+    i = BITS.index(name)
+    return w[:i] + (v,) + w[i + 1:]
+
+
+def _bit(w, name):
+    return w[BITS.index(name)]
 
 
 def submit(ctx):
     prog = ctx.prog
-    f = prog.fn('iv_work_submit_pool')
-    g = Inliner(prog, stop=lambda t: t.name in ('iv_work_start_thread', 'iv_event_post')).inline(f)
-    ls = locksets(g)
-    add = [e for e in g.events() if is_call(e, ('iv_list_add_tail', 'iv_list_add')) and lm_arg(e, 1) == ('work_pool_priv', 'work_items')]
-    if not add:
-        raise AnalysisBroken('submit: link not found')
-    # arm 1: idle list non-empty => kicked = 1 and post of that thread's kick, in the region
-    def arm(g2, what):
-        return g2
-    def force(kind):
-        def keep(blk, si, atoms):
-            for at in atoms:
-                t = list_empty_test(at, member_key=('work_pool_priv', 'idle_threads'))
+    subs = [c for c in h.contexts(prog, pool_add) if not c[0].static]
+    if not subs:
+        raise AnalysisBroken('submit: no exported function reaches the link into work_pool_priv.work_items')
+    under = {}
+    for root, g, adds in subs:
+        ls = locksets(g)
+        alloc = {canon(e['lhs']) for e in g.events() if e['ev'] == 'store' and 'rhs' in e and h.varname(e['lhs'])
+                 and any(x.get('k') == 'call' and x.get('callee') in ('malloc', 'calloc') for x in walk(e['rhs']))}
+        def step(e, w):
+            if pool_lock_op(e):
+                return [ZERO]
+            if pool_add(e):
+                return [_set(w, 'queued')]
+            if kicked_mark(e):
+                return [_set(w, 'mark')]
+            if kick_post(e):
+                return [_set(w, 'post')]
+            if start_or_request(e):
+                return [_set(w, 'start')]
+            return [w]
+        def edge(blk, si, w):
+            for at in h.atoms_on(blk, si):
+                t = list_empty_test(at, member_key=IDLE)
                 if t is not None:
-                    return (t == kind)
-            return None
-        return force_edges(g, keep)
-    gi = force('nonempty')
-    kick = lambda e: is_call(e, 'iv_event_post') and lm_arg(e, 0) == ('work_pool_thread', 'kick')
-    mark = lambda e: e['ev'] == 'store' and last_member(e['lhs']) == ('work_pool_thread', 'kicked') and canon(e.get('rhs')) == '1'
-    pts = [(gi.exit, 0)]
-    mpk = must_pass(gi, kick)
-    mpm = must_pass(gi, mark)
-    ctx.ob('R-C12d', 'submit:idle-worker-kicked', bool(mpk.get((gi.exit, 0))) and bool(mpm.get((gi.exit, 0))), loc=f.loc,
-           detail='idle list non-empty: that worker is marked kicked and its kick event is posted on every path', fn=f.q)
-    for e in g.events():
-        if kick(e) or mark(e):
-            ctx.ob('R-C12d', 'submit:kick-under-lock:%s' % ('post' if kick(e) else 'mark'), POOL in held(ls.get((e['_b'], e['_i']))), loc=e['loc'],
-                   detail='inside the pool-lock region that queued the item (a worker cannot go idle-timeout in between)', fn=f.q)
-    ge = force('empty')
-    # below maximum => start or request
-    def below(blk, si, atoms):
-        for (op, lc, rc, l, r) in atoms:
-            if last_member(l) == ('work_pool_priv', 'started_threads') and op in ('<', '<=', '>=', '>'):
-                return op in ('<', '<=')
-        return None
-    gb = force_edges(ge, below)
-    startreq = lambda e: is_call(e, 'iv_work_start_thread') or (is_call(e, 'iv_event_post') and lm_arg(e, 0) == ('work_pool_priv', 'thread_needed'))
-    mps = must_pass(gb, startreq)
-    ctx.ob('R-C12d', 'submit:no-idle-below-max-starts-or-requests', bool(mps.get((gb.exit, 0))), loc=f.loc,
-           detail='no idle worker and started_threads below the maximum: a thread is started (owner) or requested (thread_needed event)', fn=f.q)
-    # worker leaving with work queued re-posts its own kick
-    w = prog.fn('iv_work_thread_got_event')
-    found = False
-    for b, blk in w.blocks.items():
-        if blk.term and blk.term.get('cond') is not None and len(blk.succ) == 2:
-            for si in (0, 1):
-                for (op, lc, rc, l, r) in norm_cond(blk.term['cond'], si == 0):
-                    if op == '!=' and {last_member(l), last_member(r)} == {('work_pool_priv', 'seq_head'), ('work_pool_priv', 'seq_tail')}:
-                        found = True
-                        mp = must_pass_from_block(w, blk.succ[si], lambda e: is_call(e, 'iv_event_post') and lm_arg(e, 0) == ('work_pool_thread', 'kick'))
-                        pts = [(pb, pi) for (pb, pi, _) in exits_of(w)] + [(w.exit, 0)]
-                        ok = all(mp.get(p, True) for p in pts)
-                        ctx.ob('R-C12d', 'worker:leftover-work-reposts-kick', ok, loc=blk.term.get('loc'),
-                               detail='leaving with seq_head != seq_tail: the worker posts its own kick so it is called again', fn=w.q)
-    if not found:
-        ctx.ob('R-C12d', 'worker:leftover-work-reposts-kick', False, loc=w.loc,
-               detail='the worker no longer distinguishes "work still queued" on exit (seq_head != seq_tail test not found)', fn=w.q)
+                    a, b = ('em', 'ne') if t == 'empty' else ('ne', 'em')
+                    if _bit(w, b):
+                        return None
+                    w = _set(w, a)
+                    continue
+                c = h.compare_fields(at, STARTED, 'max_threads')
+                if c in ('<', '>=', '>', '=='):
+                    a, b = ('be', 'nb') if c == '<' else ('nb', 'be')
+                    if _bit(w, b):
+                        return None
+                    w = _set(w, a)
+                    continue
+                (op, lc, rc, l, r) = at
+                if op == '==' and rc == '0' and (names_of(l) & alloc):
+                    w = _set(w, 'oom')
+            return w
+        W = h.worlds(g, ZERO, step, edge)
+        ends = [e for e in g.events() if pool_lock_op(e, 'unlock')]
+        final = set()
+        for e in ends:
+            final |= {w for w in W.get(pos(e), ()) if _bit(w, 'queued') and not _bit(w, 'oom')}
+        if not final:
+            raise AnalysisBroken('%s: the pool-lock region that queues the item is never closed' % root.name)
+        # the thread that is marked and the thread that is kicked are one element taken from the idle list
+        thr = h.Items(g, rec='work_pool_thread', link='list')
+        marks = [e for e in g.events() if kicked_mark(e)]
+        posts = [e for e in g.events() if kick_post(e)]
+        mo = [o for e in marks for o in thr.var_objects(e, h.varname(strip(e['lhs']).get('base')))]
+        po = [o for e in posts for o in thr.var_objects(e, h.arg_base(e, 0))]
+        idle_elem = all(o is not None and o[2] is not None and o[2][1] == IDLE for o in mo + po)
+        same = all(any(m is not None and p is not None and m[0] & p[0] for m in mo) for p in po)
+        kicked = all((_bit(w, 'mark') and _bit(w, 'post')) for w in final if _bit(w, 'ne'))
+        ctx.ob('R-C12d', '%s:idle-worker-kicked' % root.name, kicked and idle_elem and same and any(_bit(w, 'ne') for w in final), loc=root.loc,
+               detail='idle list non-empty: an element of the idle list is marked kicked and the kick event of that same worker is posted '
+                      'before the pool lock is released, on every path%s%s' % ('' if idle_elem else '; the worker is NOT taken from idle_threads',
+                                                                               '' if same else '; mark and post concern different workers'), fn=root.q)
+        started = all(_bit(w, 'start') for w in final if _bit(w, 'em') and _bit(w, 'be'))
+        ctx.ob('R-C12d', '%s:no-idle-below-max-starts-or-requests' % root.name, started and any(_bit(w, 'em') and _bit(w, 'be') for w in final), loc=root.loc,
+               detail='no idle worker and started_threads below the maximum: a thread is started (owner) or requested (thread_needed event) '
+                      'before the pool lock is released', fn=root.q)
+        decided = all(_bit(w, 'ne') or (_bit(w, 'em') and (_bit(w, 'be') or _bit(w, 'nb'))) for w in final)
+        ctx.ob('R-C12d', '%s:decides-in-queueing-region' % root.name, decided, loc=adds[0]['loc'],
+               detail='in the pool-lock region that queues the item, every path tests the idle list and, when it is empty, the thread count '
+                      '(a worker cannot go idle or time out between the queueing and the decision)', fn=root.q)
+        for e in marks + posts:
+            k = ('post' if kick_post(e) else 'mark', e['loc'])
+            under[k] = under.get(k, True) and POOL in held(ls.get(pos(e)))
+    for (what, loc), ok in sorted(under.items()):
+        ctx.ob('R-C12d', 'submit:kick-under-lock:%s' % what, ok, loc=loc,
+               detail='inside the pool-lock region that queued the item (a worker cannot go idle-timeout in between)')
 
+
+def leftover(ctx):
+    """A worker returns to its event loop only when no work is queued (seq_head == seq_tail established in its last
+    pool-lock region, counters untouched since) or after posting its own kick."""
+    prog = ctx.prog
+    wk = pool_contexts(prog, work_site)
+    if not wk:
+        raise AnalysisBroken('worker: no root calls a work function and touches a pool')
+    for root, g, sites in wk:
+        # the worker's own record: locals that are copies of the handler's cookie parameter
+        own = {p['name'] for p in root.params[:1]}
+        grown = True
+        while grown:
+            grown = False
+            for e in g.events():
+                if e['ev'] == 'store' and e.get('op') == '=' and 'rhs' in e and h.varname(e['lhs']) and h.varname(e['rhs']) in own \
+                        and h.varname(e['lhs']) not in own:
+                    own.add(h.varname(e['lhs']))
+                    grown = True
+        def own_kick(e):
+            return kick_post(e) and h.arg_base(e, 0) in own
+        def step(e, w):
+            posted, equal = w
+            if own_kick(e):
+                return [(True, equal)]
+            if pool_lock_op(e, 'lock') or h.writes(e, SEQ_HEAD) or h.writes(e, SEQ_TAIL) or pool_add(e):
+                return [(posted, False)]
+            return [w]
+        def edge(blk, si, w):
+            posted, equal = w
+            for at in h.atoms_on(blk, si):
+                rel = h.seq_relation(at, SEQ_HEAD, SEQ_TAIL)
+                if rel is None:
+                    # the queue itself found empty is the same witness (seq_head == seq_tail iff work_items is empty)
+                    t = list_empty_test(at, member_key=WORK_ITEMS)
+                    rel = {'empty': 'eq', 'nonempty': 'ne', None: None}[t]
+                if rel == 'eq':
+                    equal = True
+                elif rel == 'ne':
+                    if equal:
+                        return None
+                    equal = False
+            return (posted, equal)
+        W = h.worlds(g, (False, False), step, edge)
+        ex = h.at_exit(g, W)
+        ok = bool(ex) and all(p or q for (p, q) in ex)
+        ctx.ob('R-C12d', 'worker:leftover-work-reposts-kick', ok, loc=sites[0]['loc'],
+               detail='every return of the worker either established seq_head == seq_tail in its last pool-lock region or posted the '
+                      'worker\'s own kick so that it is called again (no idle thread / no new thread case)', fn=root.q)
+
+
+# ------------------------------------------------------------------------------------------------------------------
+# R-C12e
+# ------------------------------------------------------------------------------------------------------------------
 
 def local(ctx):
     prog = ctx.prog
-    f = prog.fn('iv_work_handle_local')
-    ws = [e for e in f.events() if callback_kind(e) == ('callback', 'work')]
-    cs = [e for e in f.events() if callback_kind(e) == ('callback', 'completion')]
-    if not ws or not cs:
-        raise AnalysisBroken('local handler: work/completion calls not found')
-    for c in cs:
-        obj = canon(strip(c['fnexpr'])['base'])
-        ok = per_iter_must(f, c, lambda e: e in ws and canon(strip(e['fnexpr'])['base']) == obj)
-        ok2 = per_iter_must(f, ws[0], lambda e: is_call(e, ('iv_list_del', 'iv_list_del_init')) and canon(e['args'][0]) == '&%s->list' % obj)
-        ctx.ob('R-C12e', 'local:work-then-completion', ok, loc=c['loc'], detail='completion of %s follows its work function in the same iteration' % obj, fn=f.q)
-        ctx.ob('R-C12e', 'local:unlinked-first', ok2, loc=ws[0]['loc'], detail='the item is unlinked before its work function runs', fn=f.q)
-    f = prog.fn('iv_work_submit_local')
-    add = [e for e in f.events() if is_call(e, ('iv_list_add_tail', 'iv_list_add')) and lm_arg(e, 1) == ('iv_work_thr_info', 'work_items')]
-    reg = [e for e in f.events() if is_call(e, 'iv_task_register')]
-    if not add or not reg:
-        raise AnalysisBroken('local submit: add or task registration not found')
-    hd = holding(f)
-    ok = True
-    for r in reg:
-        A = hd.get((r['_b'], r['_i']), frozenset())
-        ok = ok and any(a[0] == '!=' and a[1].startswith('iv_list_empty(') and 'work_items' in a[1] for a in A)
-    # on the empty edge the registration is reached; test precedes add
-    okp = False
-    for b, blk in f.blocks.items():
-        if blk.term and blk.term.get('cond') is not None and len(blk.succ) == 2:
-            for si in (0, 1):
-                for at in norm_cond(blk.term['cond'], si == 0):
-                    if list_empty_test(at, member_key=('iv_work_thr_info', 'work_items')) == 'empty':
-                        mp = must_pass_from_block(f, blk.succ[si], lambda e: e in reg)
-                        okp = bool(mp.get((add[0]['_b'], add[0]['_i'])))
-    ctx.ob('R-C12e', 'local:task-on-empty-to-nonempty', ok and okp, loc=reg[0]['loc'],
-           detail='the local task is registered exactly on the empty edge of the local queue test, before the add', fn=f.q)
+    lc = pool_contexts(prog, work_site, pool=False)
+    if not lc:
+        raise AnalysisBroken('local handler: no root calls a work function without touching a pool')
+    for root, g, ws in lc:
+        it = h.Items(g)
+        cs = [e for e in g.events() if completion_site(e)]
+        if not cs:
+            raise AnalysisBroken('local handler %s: completion call not found' % root.name)
+        for loc, es in sorted(by_loc(ws).items()):
+            objs = [o for e in es for o in it.callee_objects(e)]
+            ok = bool(objs) and all(o is not None and o[1] == 'unlinked' for o in objs)
+            ctx.ob('R-C12e', 'local:unlinked-first', ok, loc=loc,
+                   detail='the item is unlinked, once, between its definition and the call of its work function (typestate: %s)'
+                          % sorted({o[1] if o else 'unknown item' for o in objs}), fn=root.q)
+        for loc, es in sorted(by_loc(cs).items()):
+            objs = [o for e in es for o in it.callee_objects(e)]
+            ok = bool(objs) and all(o is not None and o[1] == 'worked' for o in objs)
+            ctx.ob('R-C12e', 'local:work-then-completion', ok, loc=loc,
+                   detail='the completion is called on an item whose own work function has returned, once (typestate: %s)'
+                          % sorted({o[1] if o else 'unknown item' for o in objs}), fn=root.q)
+    subs = [c for c in h.contexts(prog, local_add) if not c[0].static]
+    if not subs:
+        raise AnalysisBroken('local submit: no exported function reaches the link into iv_work_thr_info.work_items')
+    reg = lambda e: is_call(e, 'iv_task_register') and lm_arg(e, 0) == ('iv_work_thr_info', 'task')
+    for root, g, adds in subs:
+        if not any(reg(e) for e in g.events()):
+            raise AnalysisBroken('local submit %s: registration of the local task not found' % root.name)
+        untested, offedge, owing = kick_on_empty(g, LOCALQ, local_add, reg, None)
+        ctx.ob('R-C12e', '%s:task-on-empty-to-nonempty' % root.name, not untested and not offedge and not owing, loc=adds[0]['loc'],
+               detail='the local task is registered exactly when the local queue is known empty at the add%s%s%s'
+                      % ('; emptiness NOT known at the add' if untested else '', '; registered off the empty edge' if offedge else '',
+                         '; empty queue but task NOT registered' if owing else ''), fn=root.q)
